@@ -60,6 +60,8 @@ func main() {
 		execOps(os.Args[2], os.Args[3], os.Args[4])
 	case "oracle":
 		oracle(os.Args[2], os.Args[3], os.Args[4])
+	case "barrier":
+		barrier(os.Args[4])
 	default:
 		os.Exit(2)
 	}
@@ -382,6 +384,12 @@ func mkService(f []string) *corev1.Service {
 	case "ext":
 		s.Spec.Type = corev1.ServiceTypeExternalName
 		s.Spec.ExternalName = "ext.example.com"
+	case "lb":
+		// a LoadBalancer with an assigned ingress IP: ConvertService ClusterExternalAddresses
+		s.Spec.Type = corev1.ServiceTypeLoadBalancer
+		s.Spec.ClusterIP = "10.96.0." + strconv.Itoa(1+int(name[0])%200)
+		s.Spec.ClusterIPs = []string{s.Spec.ClusterIP}
+		s.Status.LoadBalancer.Ingress = []corev1.LoadBalancerIngress{{IP: "1.2.3.4"}}
 	}
 	flags := wire.DecList(f[6])
 	if has(flags, "drain") {
@@ -394,6 +402,21 @@ func mkService(f []string) *corev1.Service {
 	if has(flags, "x") {
 		// exported to nobody: endpointslice.go serviceNeedsPush
 		ann["networking.istio.io/exportTo"] = "~"
+	}
+	if has(flags, "std") {
+		// spec.trafficDistribution (highest priority in GetTrafficDistribution)
+		v := corev1.ServiceTrafficDistributionPreferClose
+		s.Spec.TrafficDistribution = &v
+	}
+	if has(flags, "eip") {
+		s.Spec.ExternalIPs = []string{"5.6.7.8"}
+	}
+	if has(flags, "nl") {
+		v := corev1.ServiceInternalTrafficPolicyLocal
+		s.Spec.InternalTrafficPolicy = &v
+	}
+	if has(flags, "csa") {
+		ann["alpha.istio.io/canonical-serviceaccounts"] = "spiffe://cluster.local/ns/x/sa/canon"
 	}
 	if has(flags, "sa") {
 		// ConvertService: Service.ServiceAccounts from the annotation
@@ -482,6 +505,9 @@ func mkPod(f []string) *corev1.Pod {
 			yes := true
 			p.GenerateName = name + "-"
 			p.OwnerReferences = []metav1.OwnerReference{{APIVersion: "apps/v1", Kind: "StatefulSet", Name: v, Controller: &yes}}
+		case "@amb":
+			// the one annotation labelFilter looks at
+			p.Annotations = map[string]string{"ambient.istio.io/redirection": v}
 		case "@host":
 			p.Spec.Hostname = v
 		case "@sub":
@@ -733,6 +759,15 @@ func showEndpoints(eps []*model.IstioEndpoint) string {
 	return "[" + strings.Join(l, ",") + "]"
 }
 
+func showEndpointSet(eps []*model.IstioEndpoint) string {
+	l := make([]string, 0, len(eps))
+	for _, e := range eps {
+		l = append(l, showEndpoint(e))
+	}
+	sort.Strings(l)
+	return "[" + strings.Join(l, ",") + "]"
+}
+
 func resTok(r model.Resolution) string {
 	switch r {
 	case model.ClientSideLB:
@@ -761,7 +796,8 @@ func showService(s *model.Service) string {
 	return string(s.Hostname) + "{" + resTok(s.Resolution) + ";" + s.DefaultAddress + ";" + strings.Join(ports, ",") + ";" +
 		showMap(s.Attributes.LabelSelectors) + ";" + s.Attributes.ExternalName + ";" + s.Attributes.Type + ";" +
 		wire.B(s.MeshExternal) + ";" + showMap(s.Attributes.Labels) + ";" + td + ";" + showExportTo(s) + ";" +
-		strings.Join(s.ServiceAccounts, "+") + "}"
+		strings.Join(s.ServiceAccounts, "+") + ";" + strings.Join(s.ClusterVIPs.GetAddressesFor("fake"), "+") + ";" +
+		strings.Join(s.Attributes.ClusterExternalAddresses.GetAddressesFor("fake"), "+") + ";" + wire.B(s.Attributes.NodeLocal) + "}"
 }
 
 func showExportTo(s *model.Service) string {
@@ -796,7 +832,8 @@ func (w *world) snap() snapshot {
 	for host, byNs := range w.index.Shardz() {
 		for ns, es := range byNs {
 			es.RLock()
-			eps := showEndpoints(es.Shards[shard])
+			es0 := es.Shards[shard]
+			eps := showEndpoints(es0)
 			_, hasShard := es.Shards[shard]
 			others := len(es.Shards)
 			if hasShard {
@@ -806,7 +843,8 @@ func (w *world) snap() snapshot {
 			es.RUnlock()
 			sort.Strings(sas)
 			k := host + "/" + ns
-			sn.idxEps[k] = eps
+			// the property view compares endpoint SETS (the property statement), the full dump keeps the list
+			sn.idxEps[k] = showEndpointSet(es0)
 			sn.idxSA[k] = "{" + strings.Join(sas, ",") + "}"
 			x := k + eps + sn.idxSA[k]
 			if !hasShard {
